@@ -1,3 +1,17 @@
 """C12 - request admission."""
-FUNCTIONS = ['server.Server.handle_request']
-CLAIMED = False
+FUNCTIONS = ['server.Server.handle_request', 'base_server.BaseServer._get_socket',
+             'base_server.BaseServer.transport']
+
+LEVEL_TEXT = ('handle_request (threaded server) is verified against the decision-table spec function '
+              'refusal(server, environ) written from the statement (transport not allowed, missing EIO=4, '
+              'non-numeric JSONP index, dead / unknown session id, transport mismatch without upgrade, '
+              'websocket open without the Upgrade header -> 400; other methods -> 405): a refused request '
+              'is answered with exactly that status and changes nothing (session table, queues, flags, '
+              'events, ids) except reaping the closed session it names; two intermediate assertions '
+              '(cut points) carry the argument through the 150-line function')
+LEVEL_NOTE = ('parse_qs is an arbitrary function from the query string to dict[str, non-empty list[str]] '
+              '(superset of real queries); callee contracts of _handle_connect, handle_get_request, '
+              'handle_post_request, disconnect; asyncio handle_request not yet under contract')
+NOT_DECIDED = ['AsyncServer.handle_request (translate_request / _make_response front end)',
+               'priority among several simultaneous refusal reasons follows the code']
+ASSUMPTIONS = [LEVEL_NOTE]
